@@ -1571,13 +1571,16 @@ func ruleS1y(c *Ctx) {
 			return
 		}
 		val := stripConv(mu.Value)
-		al, ok := val.(*ssa.Alloc)
-		if !ok {
+		if !c.freshValue(fn, val) {
 			return
 		}
 		n++
 		late := ""
-		for _, r := range *al.Referrers() {
+		refs := val.Referrers()
+		if refs == nil {
+			return
+		}
+		for _, r := range *refs {
 			fa, ok := r.(*ssa.FieldAddr)
 			if !ok {
 				continue
@@ -1621,4 +1624,31 @@ func rulePU1(c *Ctx, rels ...string) {
 	if n < 3 {
 		c.undecided("functions taking a literal.Builder", token.NoPos, "only %d found", n)
 	}
+}
+
+// freshValue: v is allocated in fn, or is the result of a same-package constructor every return of which hands back
+// a value allocated in that constructor (newMemory(id)).
+func (c *Ctx) freshValue(fn *ssa.Function, v ssa.Value) bool {
+	v = stripConv(v)
+	if _, ok := v.(*ssa.Alloc); ok {
+		return true
+	}
+	call, ok := v.(*ssa.Call)
+	if !ok {
+		return false
+	}
+	h := helperCallee(fn, &call.Call)
+	if h == nil || h.Signature.Results().Len() != 1 {
+		return false
+	}
+	rets := c.returnsOf(h)
+	if len(rets) == 0 {
+		return false
+	}
+	for _, r := range rets {
+		if _, ok := stripConv(resultValues(r)[0]).(*ssa.Alloc); !ok {
+			return false
+		}
+	}
+	return true
 }
